@@ -72,7 +72,7 @@ impl SigningKey {
         if unsafe { EC_POINT_mul(*g, *pk.as_mut(), *bn.as_const(), null(), null(), null_mut()) }
             != 1
         {
-            return Err(PasetoError::CryptoError);
+            return Err(PasetoError::InvalidKey);
         }
 
         let mut key = LcPtr::new(unsafe { EC_KEY_new() })?;
@@ -80,8 +80,9 @@ impl SigningKey {
         if unsafe { EC_KEY_set_group(*key.as_mut(), *g) } != 1 {
             return Err(PasetoError::CryptoError);
         }
+        // fails when the scalar is zero or not below the group order
         if unsafe { EC_KEY_set_private_key(*key.as_mut(), *bn.as_const()) } != 1 {
-            return Err(PasetoError::CryptoError);
+            return Err(PasetoError::InvalidKey);
         }
         if unsafe { EC_KEY_set_public_key(*key.as_mut(), *pk.as_const()) } != 1 {
             return Err(PasetoError::CryptoError);
